@@ -16,6 +16,8 @@ from checks import c05, c08, c14, c19
 S = load()
 
 PROPERTY = "C03"
+LEVEL_TEXT = 'Exploration with a universal observer: the truthfulness predicate (membership, nullability, write-back keeps the dtype) is applied to every vector produced or mutated by the generators of C05, C08, C09-C14, C19 and by world histories.'
+LEVEL_NOTE = 'Kind membership = exact type or documented ladder; the operational form rebuilds the vector with its reported dtype.'
 DESIGN_REF = "DESIGN.md §5 C03"
 ENGINE = "world"
 TECHNIQUE = "property-based testing with a universal observer: directed generators for every dtype-producing operation, plus the generators of the other checks (assignment, elementwise, joins, aggregate/window, sort, CSV, operation histories) re-run with the truthfulness predicate applied to every vector they produce or mutate"
